@@ -10,7 +10,7 @@ import ticc_util as tu
 from common import show_list, frac_str
 
 LEVEL = "proof"
-LEAN_PROPS = ["FastTicc.Props.C08"]
+LEAN_PROPS = ["FastTicc.Props.C08", "FastTicc.Props.C08b"]
 LEAN_HELPERS = ["FastTicc.Proofs.Repop"]
 RULE = ("all cluster-size vectors with K<=4 (thorough: K<=5), sizes 0..3m+2, m in {1,2} (thorough: {1,2,3}), labels "
         "shuffled, spreads with ties, plus random larger cases (K<=12, m<=25); random.sample wrapped so the drawn "
